@@ -11,9 +11,10 @@ type ScenSpec struct {
 	QuickSecs    int
 	ThoroughRuns int
 	ThoroughSecs int
-	CrashRule    string // rule id for an engine crash of the child process
-	HangRule     string // rule id for a watchdog hang ("" = harness trouble)
-	SeedFromZero bool   // seeds are enumeration indices 0..runs-1 (fault enumeration)
+	CrashRule    string   // rule id for an engine crash of the child process
+	HangRule     string   // rule id for a watchdog hang ("" = harness trouble)
+	SeedFromZero bool     // seeds are enumeration indices 0..runs-1 (fault enumeration)
+	Env          []string // extra environment of the child (read by the code under test at package init)
 }
 
 type PropSpec struct {
@@ -43,7 +44,7 @@ var props = map[string]*PropSpec{
 	},
 	"C15": {
 		Level:        "exploration",
-		Scens:        []ScenSpec{{ID: "C15", Batch: 40, QuickRuns: 2000, QuickSecs: 90, ThoroughRuns: 200000, ThoroughSecs: 600}},
+		Scens:        []ScenSpec{{ID: "C15", Env: []string{"ENGINE_ADMIN_PORT=18081"}, Batch: 40, QuickRuns: 2000, QuickSecs: 90, ThoroughRuns: 200000, ThoroughSecs: 600}},
 		CoverageRule: "each run = one generated access-log stream (5-120 records: methods, URLs whose sibling count crosses a small convergence threshold of 2-5, nested parameters, statuses, durations, consumer tags, interceptor strings, internal records) delivered to the real discovery.Run / State / BuildTree once as a single batch and 2-4 more times under seeded batch splits (incl. empty and singleton batches), half of them with restarts between batches after which only the state file survives (new State from the file, new URL tree); non-trivial = more non-internal records than the threshold; distinct = (stream, split, restart) signatures among non-trivial runs",
 		Assumptions: []string{
 			"averages are compared with 1e-3 relative tolerance (float32, count-weighted re-combination)",
@@ -131,7 +132,7 @@ var props = map[string]*PropSpec{
 		ExpectProbes: []string{"fs.write", "fs.create", "fs.remove", "fs.read", "fs.mkdir", "haproxy.500", "probe_during_update"},
 	},
 	"C20": {
-		Level:        "exploration",
+		Level: "exploration",
 		Scens: []ScenSpec{{ID: "C20", QuickRuns: 2000, QuickSecs: 60, ThoroughRuns: 200000, ThoroughSecs: 600},
 			{ID: "C20D", QuickRuns: 400, QuickSecs: 60, ThoroughRuns: 40000, ThoroughSecs: 300}},
 		CoverageRule: "each run = the real StateChangeWatcher goroutine on the fake clock with generated settings (consecutive 1-5, stable period 0-20 s, interval 0.5-5 s, cool-down 0-60 s) and a scripted health predicate of 10-80 observations (steady with a change, flapping below the thresholds, random persistence, long runs); non-trivial = at least one reaction fired; distinct = (settings, script) signatures among non-trivial runs",
@@ -143,7 +144,7 @@ var props = map[string]*PropSpec{
 		Stub: []string{"health predicate (scripted from the tape)", "reactions (recorded only; the real revert reactions are exercised by C11)"},
 	},
 	"C11": {
-		Level:        "exploration",
+		Level: "exploration",
 		Scens: []ScenSpec{{ID: "C11", QuickRuns: 6000, QuickSecs: 120, ThoroughRuns: 200000, ThoroughSecs: 900},
 			{ID: "C11H", QuickRuns: 300, QuickSecs: 60, ThoroughRuns: 30000, ThoroughSecs: 300},
 			{ID: "C11L", QuickRuns: 300, QuickSecs: 60, ThoroughRuns: 20000, ThoroughSecs: 300}},
@@ -202,7 +203,7 @@ var props = map[string]*PropSpec{
 		ExpectProbes: []string{"concurrent_burst"},
 	},
 	"C06": {
-		Level:        "exploration",
+		Level: "exploration",
 		Scens: []ScenSpec{{ID: "C06", QuickRuns: 1500, QuickSecs: 120, ThoroughRuns: 100000, ThoroughSecs: 900, CrashRule: "R5", HangRule: ""},
 			{ID: "C06L", QuickRuns: 400, QuickSecs: 90, ThoroughRuns: 30000, ThoroughSecs: 400, CrashRule: "R5", HangRule: ""}},
 		CoverageRule: "C06L: the same processor with simulated blocking - every goroutine takes its locks through the simulator, tasks are parked inside critical sections, a goroutine that cannot get a lock is parked as blocked and a waiting writer shuts out new readers; judged on liveness (a verdict for every request once faults stop) and on deadlock (every live task waits for a lock); C06: each run = a generated Queue processor (queue_size 1-4, ttl 1-5 s, optional priority groups) on a fixed-window quota (max 1-2 per 1-5 s) in the real streams engine; 2-10 arrivals with priorities, clock targets on/next to the 100 ms processing ticks, quota window ends and TTL expiries, stalls of request goroutines at instrumented lock sites while time passes, context cancel at a random step; in a third of the runs the engine's own goroutines (processing loop, TTL watcher, removal) are scheduled at lock sites too, the loop is driven on until it holds a waiting request and the clock is moved to that request's expiry (TTL elapsing inside one quota check), and stalling the loop or the watcher across a clock jump is an injected fault; non-trivial = more arrivals than the quota allows per window and at least one grant; distinct = schedule signatures among non-trivial runs",
@@ -246,7 +247,7 @@ var props = map[string]*PropSpec{
 		ExpectProbes: []string{"concurrent_burst"},
 	},
 	"C10": {
-		Level:        "exploration",
+		Level: "exploration",
 		Scens: []ScenSpec{{ID: "C10", QuickRuns: 4000, QuickSecs: 60, ThoroughRuns: 150000, ThoroughSecs: 900},
 			{ID: "C10L", QuickRuns: 400, QuickSecs: 60, ThoroughRuns: 30000, ThoroughSecs: 300}},
 		CoverageRule: "C10L: the same queue with simulated blocking (the requests and the roll-over goroutine take the queue mutex through the simulator, are parked inside critical sections and wait for locks as parked tasks; a waiting writer shuts out new readers): every request returns once faults stop, no deadlock; C10: each run = one seeded history (2-9 arrivals with priorities, clock targets on/around window ends and TTL expiries, stalls at the hand-off point and at every instrumented lock site) against the real StrategyBasedQueuePlugin + DelayedPriorityQueue on a fake clock; a run is non-trivial if more requests arrived than the window quota and at least one grant happened; distinct = distinct (task, yield point, clock target) schedule signatures among non-trivial runs",
